@@ -6,6 +6,7 @@ import (
 	"net/http"
 	"sort"
 	"strings"
+	"time"
 
 	vs "metacontroller/pkg/internal/verifsim"
 )
@@ -301,6 +302,7 @@ func runRolloutWithCut(scn *Scn, f Factory, edits []int, midSyncs int, ogStyle i
 				if (plan.Kind == "hook-latest") == isLatest {
 					return HookResponse{Code: 503, Body: []byte("unavailable")}
 				}
+				time.Sleep(3 * time.Millisecond) // the calls that succeed are the slower ones
 				b, _ := json.Marshal(prog.EvalComposite(env.W.Sim, req))
 				return HookResponse{Code: 200, Body: b}
 			})
